@@ -8,20 +8,23 @@ SORTS = {'int': T.INT, 'bool': T.BOOL, 'seq': T.AII, 'seqseq': T.ARR(T.INT, T.AI
 class Env:
     """names: dict name -> (value, tname) ; state: current State ; old: State for old() ; cellnames: name -> cellid"""
 
-    def __init__(self, names, state, old=None, cellnames=None, pkg=None):
+    def __init__(self, names, state, old=None, cellnames=None, pkg=None, prefer_cells=False):
         self.names = names
         self.state = state
         self.old = old
         self.cellnames = cellnames or {}
         self.pkg = pkg
+        self.prefer_cells = prefer_cells
 
     def with_state(self, st):
-        return Env(self.names, st, self.old, self.cellnames, self.pkg)
+        return Env(self.names, st, self.old, self.cellnames, self.pkg, self.prefer_cells)
 
     def bind(self, extra):
         n = dict(self.names)
         n.update(extra)
-        return Env(n, self.state, self.old, self.cellnames, self.pkg)
+        e = Env(n, self.state, self.old, self.cellnames, self.pkg, self.prefer_cells)
+        e.bound = set(getattr(self, 'bound', ())) | set(extra)
+        return e
 
 
 class ExprMixin:
@@ -39,6 +42,12 @@ class ExprMixin:
         return v
 
     def lookup_name(self, name, env):
+        if env.prefer_cells and name in env.cellnames and name not in getattr(env, 'bound', ()):
+            # loop invariants speak about the current value of a variable (parameters are mutable in Go);
+            # old(x) gives the entry value
+            cid, tn = env.cellnames[name]
+            if cid in env.state.cells:
+                return env.state.cells[cid], tn
         if name in env.names:
             return env.names[name]
         if name in env.cellnames:
@@ -255,7 +264,8 @@ class ExprMixin:
         if name == 'old':
             if env.old is None:
                 raise Unsupported('old() not available here')
-            e2 = Env(env.names, env.old, env.old, env.cellnames, env.pkg)
+            e2 = Env(env.names, env.old, env.old, env.cellnames, env.pkg, False)
+            e2.bound = getattr(env, 'bound', set())
             # names that denote current cells evaluate in the old state too
             return self.eval(args[0], e2)
         if name == 'len':
